@@ -246,6 +246,18 @@ def weave_fn(sf, it, spec, log, where, canary=False):
         ed.add(toks[h].start, toks[h + len(pat) - 1].end, after)
         if not canary:
             log.rw(rule, where, before, after)
+    # R10: alpha-renaming of a parameter (Verus rejects a contract on `fn f(.., f: T)`)
+    for old_name, new_name in (spec.params or {}).items():
+        cnt = 0
+        for k in range(it.kw + 2, it.hi):
+            t = toks[k]
+            if t.kind == 'ident' and t.text == old_name and toks[k - 1].text not in ('.', '::') and toks[k + 1].text not in ('(', '::'):
+                ed.add(t.start, t.end, new_name)
+                cnt += 1
+        if cnt == 0:
+            raise Undecided('%s: parameter %s not found for renaming' % (where, old_name))
+        if not canary:
+            log.rw('R10', where, 'parameter `%s` (%d occurrences)' % (old_name, cnt), new_name)
     _name_ret(sf, it, it.body_lo, spec, ed, log, where)
     if canary or spec.rename:
         nm = toks[it.kw + 1]
